@@ -195,7 +195,8 @@ static void write_stats(const char *result) {
 }
 
 // ---------------------------------------------------------------- case lifecycle
-void begin_case(const CaseFile &c) { g_cur = c.serialize(); g_evals++; }
+static int g_watchdog = 60;   // seconds a single case may run before it is declared hung (cases take milliseconds)
+void begin_case(const CaseFile &c) { g_cur = c.serialize(); g_evals++; alarm(g_watchdog); }
 void record_fail(const CaseFile &c, const std::string &msg) {
     CaseFile d = c; d.set("_engine", g_engine); d.set("_msg", msg);
     d.save(g_out + "/fail-" + g_engine + "-" + g_wid + ".case");
@@ -214,6 +215,21 @@ static void death_cb() {
     g_failmsg = "crash"; write_stats("crash");
 }
 static void abrt(int) { death_cb(); _exit(134); }
+static bool g_replaying = false;
+static void on_alarm(int) {
+    static const char m[] = "REPLAY fail hang: the case did not finish within the watchdog limit\n";
+    if (g_replaying) { (void) !write(1, m, sizeof m - 1); _exit(1); }
+    std::string p = g_out + "/hang-" + g_engine + "-" + g_wid + ".case";
+    int fd = open(p.c_str(), O_WRONLY | O_CREAT | O_TRUNC, 0644);
+    if (fd >= 0) {
+        std::string hdr = "_engine=" + g_engine + "\n_msg=hang: the case did not finish within the watchdog limit\n";
+        (void) !write(fd, hdr.data(), hdr.size());
+        (void) !write(fd, g_cur.data(), g_cur.size());
+        close(fd);
+    }
+    g_failmsg = "hang: a single case ran for more than the watchdog limit"; write_stats("hang");
+    _exit(124);
+}
 
 const std::string &out_dir() { return g_out; }
 const std::string &worker_id() { return g_wid; }
@@ -239,10 +255,13 @@ int engine_main(int argc, char **argv, const Engine &e) {
     }
     if (__sanitizer_set_death_callback) __sanitizer_set_death_callback(death_cb);
     signal(SIGABRT, abrt);
+    signal(SIGALRM, on_alarm);
+    if (getenv("VERIF_WATCHDOG")) g_watchdog = atoi(getenv("VERIF_WATCHDOG"));
     setvbuf(stdout, nullptr, _IOLBF, 0);
     harness_init_globals();
     if (mode == "run") {
         bool ok = e.run();
+        alarm(0);
         write_stats(ok ? "pass" : "fail");
         printf("STAT engine=%s worker=%s evaluations=%ld nontrivial=%zu\n", g_engine.c_str(), g_wid.c_str(), g_evals, g_nt.size());
         if (!ok) printf("FAIL engine=%s case=%s/fail-%s-%s.case msg=%s\n", g_engine.c_str(), g_out.c_str(), g_engine.c_str(), g_wid.c_str(), esc(g_failmsg).c_str());
@@ -258,7 +277,9 @@ int engine_main(int argc, char **argv, const Engine &e) {
             return 0;
         }
         g_cur = c.serialize();
+        g_replaying = true; alarm(g_watchdog);
         std::string msg = e.replay(c);
+        alarm(0);
         if (msg.empty()) { printf("REPLAY pass\n"); fflush(stdout); _exit(0); }
         printf("REPLAY fail %s\n", esc(msg).c_str()); fflush(stdout);
         _exit(1);
